@@ -60,6 +60,8 @@ def spec_items(tier):
 def items(tier, seed):
     k = 3 if tier == 'quick' else 8
     for i, it in enumerate(spec_items(tier)):
+        if i % 3 == 2:
+            it = build.with_ns_rewards(it)
         cfgs = []
         for j in range(k):
             x = i * k + j + seed
